@@ -1069,7 +1069,9 @@ func c11Oracle(s *sim, op Op, idx int) {
 			// this step's input for a later round (skip), which the new voting view itself carries
 			s.label("round-left-by-skip-although-fully-voted")
 		} else if j != "" {
-			st.pendingNil = append(st.pendingNil, pendingNil{K: st.prevVoting, Why: j, Step: s.step, Fresh: true})
+			// more than one round left within this step: the reader had no chance to take the
+			// first NilVotedRound before the second advance overwrote the single slot (trigger of C11-F1)
+			st.pendingNil = append(st.pendingNil, pendingNil{K: st.prevVoting, Why: j, Step: s.step, Fresh: true, Overwritten: s.vv.Round > st.prevVoting.R+1})
 		}
 		if s.gsStalled {
 			// the single NilVotedRound slot is overwritten by any later round advance
